@@ -73,6 +73,13 @@ if (m && typeof m === "object") {
 return {"log": log};
 `
 
+// vfGuardJS: the guard of the recorder's listening branches.  "skip" makes a machine ignore a
+// message; "boom" makes the guard itself fail (the message is used up, the machine goes to
+// its error node and listens on).
+const vfGuardJS = `var m = _.bindings["?m"]; var mid = _.props.mid;
+if (m && m.boom && m.boom[mid]) { throw new Error("told to fail in the guard"); }
+return (m && m.skip && m.skip[mid]) ? null : {"?m": m, "log": _.bindings.log || []};`
+
 // vfRecorderSpec: timed recorders also note the (simulated) time of each message.
 func vfRecorderSpec() *core.Spec { return vfRecorderSpecV(false, 1) }
 
@@ -92,7 +99,10 @@ func vfRecorderSpecV(timed bool, version int) *core.Spec {
 			// the whole message is bound by a bare variable; a guard lets a message say which
 			// machines shall ignore it (it is consumed, nothing is recorded, nothing changes)
 			"start": {Branches: &core.Branches{Type: "message", Branches: []*core.Branch{{Pattern: "?m", Target: "rec",
-				GuardSource: &core.ActionSource{Interpreter: "ecmascript", Source: `var m = _.bindings["?m"]; return (m && m.skip && m.skip[_.props.mid]) ? null : _.bindings;`}}}}},
+				GuardSource: &core.ActionSource{Interpreter: "ecmascript", Source: vfGuardJS}}}}},
+			// a guard that fails takes the machine here; it listens just as it did before
+			"error": {Branches: &core.Branches{Type: "message", Branches: []*core.Branch{{Pattern: "?m", Target: "rec",
+				GuardSource: &core.ActionSource{Interpreter: "ecmascript", Source: vfGuardJS}}}}},
 			"rec": {
 				ActionSource: &core.ActionSource{Interpreter: "ecmascript", Source: src},
 				Branches: &core.Branches{Type: "bindings", Branches: []*core.Branch{
@@ -132,6 +142,7 @@ func vfLogIds(m *crew.Machine) []string {
 // ---- message generator: routed and unrouted messages with a hop budget -------
 
 type vfGen struct {
+	depth int
 	c     *sim.Ctx
 	mids  []string
 	n     int
@@ -193,6 +204,8 @@ func (g *vfGen) target() interface{} {
 
 func (g *vfGen) message(hops int) map[string]interface{} {
 	c := g.c
+	g.depth++
+	defer func() { g.depth-- }()
 	m := map[string]interface{}{"id": g.id()}
 	if t := g.target(); t != nil {
 		m["to"] = t
@@ -215,6 +228,11 @@ func (g *vfGen) message(hops int) map[string]interface{} {
 	}
 	if len(g.mids) > 0 && c.Chance(1, 6, "skips") {
 		m["skip"] = map[string]interface{}{g.mids[c.Intn(len(g.mids), "skipper")]: true}
+	}
+	// (only in a submitted message: where in a round of a cascade a failing guard falls decides
+	// at which node the machine is left, and the order within a round is unspecified)
+	if g.depth == 1 && len(g.mids) > 0 && c.Chance(1, 8, "booms") {
+		m["boom"] = map[string]interface{}{g.mids[c.Intn(len(g.mids), "boomer")]: true}
 	}
 	if hops > 0 && len(g.mids) > 0 && c.Chance(1, 6, "forwards") {
 		targets := append(append([]string{}, g.mids...), "nobody")
@@ -380,6 +398,9 @@ func vfPredict(msg map[string]interface{}, present map[string]bool, recorders ma
 				if sk, ok := mm["skip"].(map[string]interface{}); ok && sk[mid] == true {
 					continue // rejected by the guard: consumed, not recorded
 				}
+				if bm, ok := mm["boom"].(map[string]interface{}); ok && bm[mid] == true {
+					continue // the guard failed: consumed, not recorded, the machine listens on at its error node
+				}
 				md.seen[mid] = append(md.seen[mid], id)
 				if fw, ok := mm["fwd"].(map[string]interface{}); ok {
 					if f, ok := fw[mid].(map[string]interface{}); ok {
@@ -392,10 +413,8 @@ func vfPredict(msg map[string]interface{}, present map[string]bool, recorders ma
 						}
 					}
 				}
-				if wm, ok := mm["wreck"].(map[string]interface{}); ok && wm[mid] == true {
-					// records and emits as told, then goes to the error node for good
-					poisoned[mid] = true
-				}
+				// ("wreck": records and emits as told, then a failing step takes the machine to
+				// its error node - where it listens on)
 				if nm, ok := mm["nan"].(map[string]interface{}); ok && nm[mid] == true {
 					poisoned[mid] = true
 					continue // records the message, then returns an unencodable state without emitting
